@@ -232,3 +232,8 @@ func VBody(g *d2graph.Graph, sorted bool) string {
 	vSorted = old
 	return b.String()
 }
+
+// VerifStubXMLUnmarshal stands in for encoding/xml.Unmarshal (reflection the
+// engine does not execute): the compiler only uses it to reject markdown whose
+// rendering is not well-formed XML; the stand-in accepts everything.
+func VerifStubXMLUnmarshal(data []byte, v any) error { return nil }
